@@ -1,6 +1,7 @@
 import Gtree.Lemmas.Names
 import Gtree.Lemmas.Build
 import Gtree.Lemmas.ParseDoc
+import Gtree.Lemmas.ParseMixed
 /-
   C02 — a document is rendered completely or rejected: no silent loss.
   Proved here about the model of the repaired generator:
@@ -321,6 +322,39 @@ theorem C02_not_multiple_rejected (g : GState) (c b : UInt8) (m : Nat) (name : B
 end Gtree
 
 namespace Gtree
+/-- M3 — a row whose indentation mixes tabs and spaces is rejected, naming the row: whatever the parser
+    has learnt so far, whatever bullet symbol follows and whatever the rest of the row contains -/
+theorem C02_mixed_indent_rejected (g : GState) (ind rest : Bytes)
+    (hind : ∀ x ∈ ind, x = sp ∨ x = tab) (hsp : sp ∈ ind) (htab : tab ∈ ind)
+    (hnb : isBlank (ind ++ rest) = false) :
+    genStep g (ind ++ rest) = .error (.format (ind ++ rest)) := by
+  have hsep := separateRow_mixed g.p ind rest hind hsp htab
+  obtain ⟨c, tl, hi⟩ : ∃ c tl, ind = c :: tl := by
+    cases ind with
+    | nil => simp at hsp
+    | cons c tl => exact ⟨c, tl, rfl⟩
+  have hc : c = sp ∨ c = tab := hind c (by rw [hi]; simp)
+  have hparse : ∃ st', parse g.p (ind ++ rest) = (st', .error .incorrect) := by
+    cases hs : separateRow g.p (ind ++ rest) with
+    | mk st' r =>
+      rw [hs] at hsep
+      simp only at hsep
+      subst hsep
+      refine ⟨st', ?_⟩
+      unfold parse
+      rw [hnb]
+      rw [hi] at hs ⊢
+      rcases hc with rfl | rfl
+      · simp only [List.cons_append, sp] at hs ⊢
+        simp [hs]
+      · simp only [List.cons_append, tab] at hs ⊢
+        simp [hs]
+  obtain ⟨st', hp⟩ := hparse
+  simp only [genStep, hp]
+
+/-- such rows exist: "␠⇥- z" is not blank -/
+example : isBlank ([sp, tab] ++ [hy, sp, 0x7A]) = false := by decide
+
 /-- non-vacuity of `C02_no_silent_loss`: the rows "- a", "  - b" carry the item texts a, b -/
 example : textsOf {} [[0x2D, 0x20, 0x61], [0x20, 0x20, 0x2D, 0x20, 0x62]] = [[0x61], [0x62]] := by decide
 end Gtree
